@@ -25,7 +25,7 @@ import numpy as np
 from hypothesis import strategies as st
 
 from tqv import gen, ref
-from tqv.core import SubCheck, Violation, req
+from tqv.core import Inconclusive, SubCheck, Violation, req
 
 PROPERTY = "C06"
 RULE = (
@@ -999,3 +999,54 @@ SUBCHECKS = [
     SubCheck("pauli_channel", check_pauli, _pauli_case, _nt_pauli, quick=3000, thorough=50000, shards=4),
     SubCheck("reduction_choi", check_reduction_choi, _red_case, _nt_red, quick=3000, thorough=50000, shards=4),
 ]
+
+
+# ------------------------------------------------------------------------------------------
+# tolerance semantics of is_completely_positive (added after seeded change C06-s4 was missed: the margin logic above
+# never places an eigenvalue between the two tolerance arguments, so exchanging them went unnoticed)
+# ------------------------------------------------------------------------------------------
+@st.composite
+def _cptol_case(draw):
+    return {
+        "d": draw(st.integers(2, 3)),
+        "seed": draw(gen.SEED),
+        "cplx": draw(st.booleans()),
+        "atol": draw(st.sampled_from([None, 1e-8, 1e-7, 1e-6, 1e-4])),
+        "rtol": draw(st.sampled_from([None, 1e-5, 1e-3, 1e-9])),
+        "side": draw(st.sampled_from(["violates", "within"])),
+        "factor": draw(st.sampled_from([10.0, 30.0, 100.0])),
+    }
+
+
+def check_cp_tolerance(case):
+    from toqito.channel_props import is_completely_positive
+
+    n = case["d"] ** 2
+    atol = 1e-8 if case["atol"] is None else case["atol"]
+    u = gen.rand_unitary(case["seed"], n, real=not case["cplx"])
+    g = gen.rng(case["seed"] // 3 + 11)
+    lam = np.sort(g.uniform(0.2, 1.0, size=n))
+    lam[0] = -atol * case["factor"] if case["side"] == "violates" else -atol / case["factor"]
+    j = (u * lam) @ u.conj().T
+    j = (j + j.conj().T) / 2
+    got_min = float(np.linalg.eigvalsh(j)[0])
+    if abs(got_min - lam[0]) > atol / 1000:
+        raise Inconclusive("construction-inexact")
+    kw = {}
+    if case["atol"] is not None:
+        kw["atol"] = case["atol"]
+    if case["rtol"] is not None:
+        kw["rtol"] = case["rtol"]
+    got = bool(is_completely_positive(j, **kw))
+    want = case["side"] == "within"
+    req(
+        got == want,
+        f"is_completely_positive(Choi with smallest eigenvalue {lam[0]:.1e}, {kw or 'default tolerances'}) returned {got}; "
+        f"the eigenvalue tolerance is atol = {atol:.0e}, so the definition gives {want}",
+        "cp:tolerance-semantics",
+    )
+
+
+SUBCHECKS.append(
+    SubCheck("cp_tolerance", check_cp_tolerance, _cptol_case, lambda c: f"{c['side']},atol={c['atol']},rtol={c['rtol']}", quick=2000, thorough=30000, shards=4)
+)
